@@ -33,3 +33,20 @@ Example C09_t2_dec_packet_nonvacuous :
   exists pk store', dec_packet [196; 15; 7; 1; 2; 3; 4; 5; 6; 7; 8; 9] 0 geo [] false false true (0, 0, 0, 0)
                     = Ok (pk, 6, store') /\ dp_present pk = true /\ dp_body pk = [1; 2; 3].
 Proof. cbv zeta. eexists. eexists. vm_compute. repeat split; reflexivity. Qed.
+
+(* over a whole tile: for ANY tile bytes, progression order, counts, geometry tables and style the
+   bodies of all decoded packets together are at most the tile length *)
+From V Require Import T2.T2ProofsBodyTotal.
+Theorem C09_t2_tile_bodies_bounded_by_tile_length :
+  forall data order nl nr nc g dpidx geo style strict resilient ps,
+  dec_packets data order nl nr nc g dpidx geo style strict resilient = Ok ps ->
+  bodies_total ps <= zlen data.
+Proof. exact packet_decoder_bodies_bounded. Qed.
+Print Assumptions C09_t2_tile_bodies_bounded_by_tile_length.
+
+Example C09_t2_tile_bodies_nonvacuous :
+  let g := {| pg_bounds := fun _ => (0, 0, 8, 8); pg_sampling := fun _ => (1, 1); pg_precinct := fun _ => (32768, 32768) |} in
+  let geo : dgeo := [((0, 0, 0, 0), (2, 2, []))] in
+  exists ps, dec_packets [196; 15; 7; 1; 2; 3; 4; 5; 6; 7; 8; 9] 0 2 1 1 g (fun _ _ => [0]) geo 0 false true = Ok ps /\
+             (0 < bodies_total ps <= 12).
+Proof. cbv zeta. eexists. split; [vm_compute; reflexivity | vm_compute; split; [reflexivity | discriminate]]. Qed.
